@@ -1,8 +1,9 @@
 (* L0 model of the layer selection of rtpconn/rtpconn.go: the layerInfo word,
    the layer part of rtpDownTrack.Write, adjustLayer, updateRate and the
-   layer update of replaceTracks.  Each function below is one event executed
-   atomically (the atomic-event semantics of DESIGN.md C04); the split
-   semantics (separate loads and stores) is in Proofs/LayersSplit.v.
+   layer update of replaceTracks.  The word is only ever changed through
+   updateLayerInfo (a compare-and-swap loop), so each closure handed to it is
+   one atomic event: write1, write2, adjust, set_limit.  [write_layer] is
+   what one call of Write does when nothing else intervenes.
    Flag fields tid/sid come from 2- and 3-bit codec fields, so they are < 16
    and the 4-bit packing of setLayerInfo/getLayerInfo is the identity on
    them (proved in Proofs/Layers.v). *)
@@ -97,6 +98,41 @@ Definition write_layer (l : layer) (f : flags) (rate8 max : Z) : layer * bool * 
   let drop := (tid l3 <? f_tid f) || (sid l3 <? f_sid f)
               || ((f_sid f <? sid l3) && f_sidNonReference f) in
   (l3, drop, kfreq).
+
+(* The two closures that Write hands to updateLayerInfo (a compare-and-swap
+   loop): each is applied atomically to the current word.  [write_layer] above
+   is their sequential composition (Proofs/LayersAtomic.v, write_layer_atomic);
+   other goroutines' updates may come between them. *)
+Definition write1 (l : layer) (f : flags) : layer :=
+  let la :=
+    if maxTid l <? f_tid f then
+      if tid l =? maxTid l
+      then mkLayer (sid l) (wantedSid l) (maxSid l) (f_tid f) (f_tid f) (f_tid f) (limitSid l)
+      else mkLayer (sid l) (wantedSid l) (maxSid l) (tid l) (wantedTid l) (f_tid f) (limitSid l)
+    else l in
+  if maxSid la <? f_sid f then
+    if (sid la =? maxSid la) && negb (limitSid la)
+    then mkLayer (f_sid f) (f_sid f) (f_sid f) (tid la) (wantedTid la) (maxTid la) (limitSid la)
+    else mkLayer (sid la) (wantedSid la) (f_sid f) (tid la) (wantedTid la) (maxTid la) (limitSid la)
+  else la.
+
+Definition write2 (l1 : layer) (f : flags) : layer :=
+  let l2 :=
+    if f_start f && negb (tid l1 =? wantedTid l1) then
+      if f_keyframe f then
+        mkLayer (sid l1) (wantedSid l1) (maxSid l1) (wantedTid l1) (wantedTid l1) (maxTid l1) (limitSid l1)
+      else if wantedTid l1 <? tid l1 then
+        mkLayer (sid l1) (wantedSid l1) (maxSid l1) (wantedTid l1) (wantedTid l1) (maxTid l1) (limitSid l1)
+      else if f_tidUpSync f && (f_tid f <=? wantedTid l1) then
+        mkLayer (sid l1) (wantedSid l1) (maxSid l1) (f_tid f) (wantedTid l1) (maxTid l1) (limitSid l1)
+      else l1
+    else l1 in
+  if f_start f && f_keyframe f then
+    mkLayer (wantedSid l2) (wantedSid l2) (maxSid l2) (tid l2) (wantedTid l2) (maxTid l2) (limitSid l2)
+  else l2.
+
+Definition drop_of (l3 : layer) (f : flags) : bool :=
+  (tid l3 <? f_tid f) || (sid l3 <? f_sid f) || ((f_sid f <? sid l3) && f_sidNonReference f).
 
 (* replaceTracks: the request changed *)
 Definition set_limit (l : layer) (b : bool) : layer :=
